@@ -302,6 +302,11 @@ pub fn cci_ref(bars: &[RawBar], n: usize, big_since_reset: f64) -> Option<Cond> 
 /// Is the comparison of the typical prices of bars a and b unambiguous under any evaluation order?
 /// `sep` = required relative separation when they differ.
 pub fn tp_pair_unambiguous(a: &RawBar, b: &RawBar, sep: f64) -> bool {
+    tp_pair_unambiguous_ex(a, b, sep, true)
+}
+/// `allow_exact_sums = false`: equal typical prices from *different* bars count as ambiguous
+/// (needed when the stream is also evaluated after a non-dyadic rescaling, which destroys exactness)
+pub fn tp_pair_unambiguous_ex(a: &RawBar, b: &RawBar, sep: f64, allow_exact_sums: bool) -> bool {
     if a.h.to_bits() == b.h.to_bits() && a.l.to_bits() == b.l.to_bits() && a.c.to_bits() == b.c.to_bits() {
         return true;
     }
@@ -311,6 +316,9 @@ pub fn tp_pair_unambiguous(a: &RawBar, b: &RawBar, sep: f64) -> bool {
     let scale = ta.to_f64().abs().max(tb.to_f64().abs());
     if d >= sep * scale && d > 0.0 {
         return true;
+    }
+    if !allow_exact_sums {
+        return false;
     }
     // equal or nearly equal exact typical prices from different bars: unambiguous only if every
     // three-term sum is exact in every order (then all orders give identical f64 sums)
@@ -334,6 +342,9 @@ pub struct MfiOut {
 }
 /// MoneyFlowIndex flows over the last min(t-1, n) typical-price moves of `bars` (t = bars.len() >= 2)
 pub fn mfi_ref(bars: &[RawBar], n: usize, sep: f64) -> MfiOut {
+    mfi_ref_ex(bars, n, sep, true)
+}
+pub fn mfi_ref_ex(bars: &[RawBar], n: usize, sep: f64, allow_exact_sums: bool) -> MfiOut {
     let t = bars.len();
     let k = (t - 1).min(n);
     let mut pmf = DD::ZERO;
@@ -343,7 +354,7 @@ pub fn mfi_ref(bars: &[RawBar], n: usize, sep: f64) -> MfiOut {
     for j in (t - k)..t {
         let a = &bars[j - 1];
         let b = &bars[j];
-        if !tp_pair_unambiguous(a, b, sep) {
+        if !tp_pair_unambiguous_ex(a, b, sep, allow_exact_sums) {
             tainted = true;
         }
         let ta = tp_dd(a);
